@@ -63,9 +63,9 @@ def observerCode : List Nat := [0x8D, 0x00, 0x03, 0x8E, 0x01, 0x03, 0x8C, 0x02, 
   0x8E, 0x04, 0x03, 0xAD, 0x20, 0x03, 0x49, 0xFF, 0x8D, 0x21, 0x03, 0x00,
   0xE8, 0xC8, 0x8E, 0x05, 0x03, 0x8C, 0x06, 0x03, 0x0A, 0x00]
 
-/-- INX; STA $7F00; INY; INY; STA $7F00; NOP; STX $7F00; ASL $7F00,X ... BRK -/
+/-- INX; STA $7F00; INY; INY; STA $7F00; NOP; STX $7F00; LDX #1; STY $7F00; BRK -/
 def trapObserverCode : List Nat := [0xE8, 0x8D, 0x00, 0x7F, 0xC8, 0xC8, 0x8D, 0x00, 0x7F, 0xEA, 0x8E, 0x00, 0x7F,
-  0xA2, 0x01, 0xFE, 0xFF, 0x7E, 0x00]
+  0xA2, 0x01, 0x8C, 0x00, 0x7F, 0x00]
 
 /-- `luaapi M SPEC LOADAT ITERS TRAP | phase-1 ops | phase-2 ops => ok|error | tokens` -/
 def handleLuaApi (line : String) : String :=
